@@ -7,6 +7,7 @@ package main
 
 import (
 	"context"
+	"math"
 	"encoding/json"
 	"errors"
 	"fmt"
@@ -293,7 +294,7 @@ func runCase(t tcase) (result, []string) {
 		if !res.IsNil {
 			bad("Replay failed without any fault: %s", res.Err)
 		}
-	case "cb-error":
+	case "cb-error", "cb-error-canceled", "cb-error-deadline":
 		if len(res.Delivered) >= t.At && res.IsNil {
 			bad("the callback returned an error at event %d but Replay returned nil", t.At)
 		}
@@ -375,6 +376,12 @@ func replayWith(bus *eventbus.EventBus, ctx context.Context, from eventbus.Offse
 			switch t.Fault {
 			case "cb-error":
 				return errCallback
+			case "cb-error-canceled":
+				// the callback's own work was cancelled (a per-event timeout of its own, say): an
+				// error like any other, although the replay's context is alive
+				return fmt.Errorf("handling the event: %w", context.Canceled)
+			case "cb-error-deadline":
+				return context.DeadlineExceeded
 			case "cb-panic":
 				// delivered, but the callback did not complete for it
 				res.Delivered = res.Delivered[:len(res.Delivered)-1]
@@ -412,10 +419,10 @@ func rowFailHit(t tcase, want int) bool { return t.At <= want }
 
 func cases(thorough bool) []tcase {
 	maxL := 4
-	batches := []int{1, 2, 3, 0}
+	batches := []int{1, 2, 3, 0, math.MaxInt, math.MaxInt - 1}
 	if thorough {
 		maxL = 9
-		batches = []int{1, 2, 3, 4, 5, 0}
+		batches = []int{1, 2, 3, 4, 5, 0, math.MaxInt, math.MaxInt - 1, math.MaxInt32, math.MaxInt64 / 2}
 	}
 	var l []tcase
 	for ci, cfg := range configs {
@@ -437,6 +444,9 @@ func cases(thorough bool) []tcase {
 					for k := 1; k <= want; k++ {
 						l = append(l, tcase{Cfg: ci, Batch: b, L: L, Start: s, Fault: "cb-error", At: k}, tcase{Cfg: ci, Batch: b, L: L, Start: s, Fault: "cb-cancel", At: k},
 							tcase{Cfg: ci, Batch: b, L: L, Start: s, Fault: "cb-panic", At: k})
+						if (b == 0 || b == 2) && cfg.Kind != "durable" { // (the durable-streams truncation is recorded under the other fault labels)
+							l = append(l, tcase{Cfg: ci, Batch: b, L: L, Start: s, Fault: "cb-error-canceled", At: k}, tcase{Cfg: ci, Batch: b, L: L, Start: s, Fault: "cb-error-deadline", At: k})
+						}
 						if sqliteCfg {
 							l = append(l, tcase{Cfg: ci, Batch: b, L: L, Start: s, Fault: "cb-close", At: k})
 						}
